@@ -94,3 +94,25 @@ Theorem C12_fifteenth_rejected : forall s us,
   length (s_words s) = 1%nat -> ((exists s', merge_all s us = Some s') <-> (length us <= 14)%nat).
 Proof. exact (fifteenth_rejected C12_fact_guards). Qed.
 Print Assumptions C12_fifteenth_rejected.
+
+(* ---- tokens made by path rewrite plugins (JoinKatakanaOovPlugin: concat_oov_nodes; JoinNumericPlugin: concat_nodes) ---- *)
+(* shapes re-read from analysis/node.rs, config.rs and dictionary.rs: the joined node carries the maximum of its parts' word ids
+   ((dic, MAX_WORD) when that is not OOV) resp. WordId::INVALID; every configured userDict entry is one dictionary of the stack *)
+Fact C12_fact_join_rule : join_shapes_ok = true.
+Proof. vm_compute. reflexivity. Qed.
+Fact C12_fact_joined_invalid_is_oov : reported_dic Generated.LexFacts.JOINED_INVALID = (-1)%Z.
+Proof. vm_compute. reflexivity. Qed.
+
+(* a joined token with an out-of-vocabulary part is out of vocabulary and reports -1, wherever that part stands *)
+Theorem C12_joined_oov_reports_minus_one : forall ws w,
+  Forall (fun x => x < 4294967296) ws -> In w ws -> is_oov w = true ->
+  is_oov (join_oov_wid ws) = true /\ reported_dic (join_oov_wid ws) = (-1)%Z.
+Proof. exact (joined_oov_reports_minus_one C12_fact_layout). Qed.
+Print Assumptions C12_joined_oov_reports_minus_one.
+
+(* a joined token made of dictionary words only reports the dictionary of one of its parts *)
+Theorem C12_joined_dictionary_parts : forall ws,
+  ws <> [] -> Forall (fun x => x < 4294967296) ws -> Forall (fun x => is_oov x = false) ws ->
+  exists w, In w ws /\ reported_dic (join_oov_wid ws) = Z.of_N (dic_of w).
+Proof. exact (joined_dictionary_parts C12_fact_layout). Qed.
+Print Assumptions C12_joined_dictionary_parts.
